@@ -130,6 +130,7 @@ class SolveProperty(Property):
     per_arg = True
     check_trace = True
     max_n = 8
+    quick_k = 600      # random / structured frameworks in the quick tier (C07 overrides: its list queries multiply the cases)
     assumptions = [
         "CaDiCaL (the embedded backend) is a sound and complete SAT solver",
         "reference deciders are exponential: frameworks judged directly have at most %d arguments; larger ones are covered by the theorems and by trace correspondence only",
@@ -140,7 +141,7 @@ class SolveProperty(Property):
         if tier == "quick":
             for n in range(0, 3):
                 fws += list(gen.all_digraphs(n))
-            k = 260
+            k = self.quick_k
         else:
             for n in range(0, 4):
                 fws += list(gen.all_digraphs(n))
@@ -368,6 +369,7 @@ class C04(SolveProperty):
 
 class C07(SolveProperty):
     id = "C07"
+    quick_k = 260
     tasks = ["DC", "DS"]
     certs = [0, 1]
     multi = True
